@@ -100,11 +100,12 @@ def finish(ctx, broken=None):
     known = [k for k in load_known() if k.get('property') == prop and k.get('status') == 'known']
     known_keys = {(k['rule'], k['key']): k for k in known}
 
+    # Obligations a rule could not decide (a construct outside what it models): reported, recorded in
+    # the evidence, and NOT part of the verdict - the exit code speaks for the obligations that were
+    # decided.  (A vanished anchor, an instance count under the floor or a checker crash is different:
+    # that is analysis-broken, exit 2.)
     for rule_, key_, loc_, why_ in getattr(ctx, 'undecided_obs', []):
-        print('undecided: %s %s at %s: %s' % (rule_, key_, loc_, why_))
-    if broken is None and getattr(ctx, 'undecided_obs', None):
-        u0 = ctx.undecided_obs[0]
-        broken = '%d obligation(s) could not be decided (first: %s %s at %s: %s)' % (len(ctx.undecided_obs), u0[0], u0[1], u0[2], u0[3])
+        print('UNDECIDED: %s %s at %s: %s' % (rule_, key_, loc_, why_))
     # minimum-instance discipline: a rule that matched fewer sites than confirmed by hand is broken
     if broken is None:
         counts = {}
@@ -188,6 +189,7 @@ def finish(ctx, broken=None):
             'functions_analysed': len(ctx.functions),
             'function_names': sorted(ctx.functions)[:200],
             'known_findings': [{'rule': o.rule, 'key': o.key, 'what': k.get('what')} for o, k in known_hits],
+            'undecided': [{'rule': r_, 'instance': k_, 'at': l_, 'why': w_[:300]} for r_, k_, l_, w_ in getattr(ctx, 'undecided_obs', [])],
             'checker_cmd': 'python3 sa/check.py %s --tier %s' % (prop, ctx.tier),
             'trusted_base': ['clang 14 front end (parser, Sema, template instantiation, JSON AST dumper)', 'python3 rule implementations under /verif/sa', 'frozen std/libc summaries in sa/exc.py'],
             'exhaustive': False,
@@ -201,8 +203,8 @@ def finish(ctx, broken=None):
     with open(os.path.join(evdir, '%s.json' % prop), 'w') as f:
         json.dump(ev, f, indent=1)
 
-    print('%s [%s]: %d obligations, %d discharged, %d violation(s), %d known finding(s); units=%s; %.1fs' % (
-        prop, ctx.tier, total, discharged, len(violations), len(known_hits), ','.join(sorted(ctx.units)), time.time() - ctx.t0))
+    print('%s [%s]: %d obligations, %d discharged, %d violation(s), %d known finding(s), %d undecided; units=%s; %.1fs' % (
+        prop, ctx.tier, total, discharged, len(violations), len(known_hits), len(getattr(ctx, 'undecided_obs', [])), ','.join(sorted(ctx.units)), time.time() - ctx.t0))
     for rid, (d, m) in sorted(ctx.rules.items()):
         pr = per_rule.get(rid, {'instances': 0, 'discharged': 0})
         print('  %-8s %3d/%-3d (min %d)  %s' % (rid, pr['discharged'], pr['instances'], m, d[:110]))
